@@ -149,7 +149,7 @@ theorem C05_frame (fuel : Nat) (sf of : Flags) (scs ocs : List (Key × Node)) (r
     (k : Key) (hk : alookup k ocs = none) :
     (alookup k r.children).map native = (alookup k scs).map native := by
   simp only [mergeF, compMerge, hlive, Bool.false_eq_true, if_false] at h
-  cases hl : mergeLoop (mergeF fuel) sf .dict scs ocs with
+  cases hl : mergeLoop (mergeF fuel) sf .dict [] scs ocs with
   | error e => simp [hl] at h
   | ok scs' =>
     simp only [hl] at h
